@@ -23,7 +23,9 @@ def denoms(rng, n, tricky=True):
     alpha = [b"a", b"b", b"u"]
     tails = [b"\x00", b"\x01", b"\x7f", b"\x00\x00", b"\x00a", b"\x01\x00", b"\x02"]
     out = set()
-    base = [b"aaa", b"bbb", b"uaura", b"uusd", b"abc", b"abcd", b"abca", b"bcd", b"a", b"ab", b"b", b"ibc/27394FB092D2ECCD"]
+    base = [b"aaa", b"bbb", b"uaura", b"uusd", b"abc", b"abcd", b"abca", b"bcd", b"a", b"ab", b"b", b"ibc/27394FB092D2ECCD",
+            # denoms are case-sensitive; upper-case letters sort before lower-case ones
+            b"ibc/27394FC0", b"ibc/F082B65C", b"ibc/f082b65c", b"ibc/27394fb092d2eccd", b"IBC/AB", b"Uaura", b"UAURA", b"uAura", b"A", b"Ab", b"AB", b"B"]
     for d in base:
         out.add(d)
     while len(out) < n:
